@@ -94,7 +94,8 @@ func (p *Publish) Unpack(r io.Reader) error {
 	if err != nil {
 		return err
 	}
-	if !ValidTopicName(true, p.TopicName) {
+	// a v5 PUBLISH may leave the topic name empty if it carries a Topic Alias
+	if !(p.Version == Version5 && len(p.TopicName) == 0) && !ValidTopicName(true, p.TopicName) {
 		return codes.ErrMalformed
 	}
 	if p.Qos > Qos0 {
@@ -107,6 +108,9 @@ func (p *Publish) Unpack(r io.Reader) error {
 		p.Properties = &Properties{}
 		if err := p.Properties.Unpack(bufr, PUBLISH); err != nil {
 			return err
+		}
+		if len(p.TopicName) == 0 && p.Properties.TopicAlias == nil {
+			return codes.ErrProtocol
 		}
 	}
 	p.Payload = bufr.Next(bufr.Len())
